@@ -291,5 +291,8 @@ int main(int argc, char **argv) {
     if (verbose) out["stages"] = std::move(stageReports);
     outs() << json::Value(std::move(out)) << "\n"; outs().flush();
   }
+  { // coverage accounting: the library source lines that contributed interpreted instructions in this run
+    json::Object cov; for (auto &kv : g_linesTouched) { json::Array a; for (int l : kv.second) a.push_back(l); cov[kv.first] = std::move(a); }
+    json::Object o; o["_coverage"] = std::move(cov); outs() << json::Value(std::move(o)) << "\n"; outs().flush(); }
   return 0;
 }
